@@ -785,6 +785,13 @@ func derivesFrom(v, src ssa.Value) bool {
 			if b := freeVarBinding(x); b != nil {
 				return walk(b, d+1)
 			}
+		case *ssa.Alloc:
+			// a cell reached by address (e.g. the backing array of variadic arguments): what is stored into it
+			for _, s := range storesToDeep(x) {
+				if walk(s, d+1) {
+					return true
+				}
+			}
 		default:
 			var ops []*ssa.Value
 			if in, ok := v.(ssa.Instruction); ok {
